@@ -696,6 +696,12 @@ func runLong(b core.Batch, em *core.Emitter) {
 				em.Emit(core.Result{Case: id, Class: "long-history", Verdict: core.Violated, Key: key, Msg: msg, Obs: obs})
 			}
 		}
+		unsure := func(msg string) {
+			if !violated {
+				violated = true // stop the history; the result is "no verdict", not a violation
+				em.Emit(core.Result{Case: id, Class: "long-history", Verdict: core.Inconclusive, Msg: msg, Obs: obs})
+			}
+		}
 		checkpoint := func(label string) {
 			checkpoints++
 			srv.Quiesce(refclient.Watchdog)
@@ -730,7 +736,12 @@ func runLong(b core.Batch, em *core.Emitter) {
 				from := long[(k+1)%K]
 				text := fmt.Sprintf("ping-%s-%d", label, k)
 				if _, ok := from.Call(108, rc.F(103, rc.U16(int(ids[k]))), rc.F(113, rc.U16(1)), rc.FS(101, text)); !ok {
-					fail("C13/long/request-unanswered", fmt.Sprintf("%s: long-lived client's request is no longer answered on its own connection", label))
+					if strings.HasPrefix(from.LastWhy, "watchdog") {
+						// a wall-clock limit of the harness fired (loaded machine): no verdict
+						unsure(fmt.Sprintf("%s: %s", label, from.LastWhy))
+						return
+					}
+					fail("C13/long/request-unanswered", fmt.Sprintf("%s: long-lived client's request is no longer answered on its own connection (%s)", label, from.LastWhy))
 					return
 				}
 				srv.Quiesce(refclient.Watchdog)
